@@ -1703,6 +1703,12 @@ fn extract_join_key(arrays: &[ArrayRef], row: usize) -> JoinKey {
                         .downcast_ref::<arrow::array::StringArray>(),
                     a.key(row),
                 ) {
+                    // A gathered dictionary keeps the build column's NULLs as
+                    // null VALUES under valid keys; reading such a slot gave
+                    // the empty string, so NULL keys matched '' rows.
+                    if values.is_null(key) {
+                        return JoinValue::Null;
+                    }
                     return JoinValue::String(values.value(key).to_string());
                 }
                 return JoinValue::Null;
